@@ -6,9 +6,11 @@
 -/
 import BioCantor.Proofs.Ties
 import BioCantor.Model.LoopGlue
+import BioCantor.Model.Algebra
+set_option autoImplicit false
 namespace BioCantor.Proofs.LoopTies
 open BioCantor BioCantor.GenP BioCantor.Proofs.Ties
-open BioCantor.Model.LoopGlue (siBlk finishRel siLocation)
+open BioCantor.Model.LoopGlue (siBlk finishRel siLocation zipBlk finishOpt)
 
 /-- equality of kernel answers is decidable (used by the `by decide` sanity facts on concrete inputs) -/
 instance {ε α : Type} [DecidableEq ε] [DecidableEq α] : DecidableEq (Except ε α)
@@ -566,5 +568,208 @@ theorem has_overlap_tie (l : Loc) (hv : blocksValid l.blocks = true) (b : Blk) (
     simp only [List.mem_map] at hx
     obtain ⟨a, ha, rfl⟩ := hx
     rw [Ties.overlap a b (hvalid a ha) hb, siBlk_si]
+
+/-! ### _combine_blocks / optimize_blocks / optimize_and_combine_blocks -/
+
+/-- starts / ends of a model block list as the generated loop holds them (`new_starts`, `new_ends`) -/
+def startsOf (bs : List Blk) : List Int := bs.map (fun b => (b.1 : Int))
+def endsOf (bs : List Blk) : List Int := bs.map (fun b => (b.2 : Int))
+
+/-- the loop's state (curr_start, curr_end, new_starts, new_ends) represents the model's (cur, acc):
+    the lists are the kept blocks in order, and the running end is the last kept block's end -/
+def CombInv (cs ce : Option Int) (ns ne : List Int) (cur : Option Nat) (acc : List Blk) : Prop :=
+  ns = startsOf acc.reverse ∧ ne = endsOf acc.reverse ∧
+    ((acc = [] ∧ cs = none ∧ ce = none ∧ cur = none) ∨
+     (∃ last tail, acc = last :: tail ∧ cs ≠ none ∧ ce = some (last.2 : Int) ∧ cur = some last.2))
+
+theorem combine_loop (preserve : Bool) :
+    ∀ (bs : List Blk) (needs : Bool) (cs ce : Option Int) (ns ne : List Int) (cur : Option Nat) (acc : List Blk),
+      blocksValid bs = true → CombInv cs ce ns ne cur acc →
+      ∃ cs' ce', Gen.CompoundInterval_combine_blocks_loop1 preserve (sePairs bs) needs cs ce ns ne
+        = .ok (.done ((Model.combineLoop preserve bs cur acc needs).2, cs', ce',
+                      startsOf (Model.combineLoop preserve bs cur acc needs).1,
+                      endsOf (Model.combineLoop preserve bs cur acc needs).1)) := by
+  intro bs
+  induction bs with
+  | nil =>
+    intro needs cs ce ns ne cur acc _ hinv
+    exact ⟨cs, ce, by simp [sePairs, Gen.CompoundInterval_combine_blocks_loop1, Model.combineLoop, hinv.1, hinv.2.1]⟩
+  | cons b bs ih =>
+    intro needs cs ce ns ne cur acc hv hinv
+    obtain ⟨hb, hv'⟩ := (blocksValid_cons' b bs).1 hv
+    obtain ⟨hns, hne, hcase⟩ := hinv
+    simp only [sePairs, List.map_cons, Gen.CompoundInterval_combine_blocks_loop1]
+    rw [show List.map (fun b : Blk => ((b.1 : Int), (b.2 : Int))) bs = sePairs bs from rfl]
+    by_cases hz : b.2 - b.1 = 0
+    · -- empty block: dropped, needs_combining := True
+      have hz' : (b.2 : Int) - (b.1 : Int) = 0 := by omega
+      simp only [hz', if_true, Model.combineLoop, hz]
+      exact ih true cs ce ns ne cur acc hv' ⟨hns, hne, hcase⟩
+    · have hz' : ¬ (b.2 : Int) - (b.1 : Int) = 0 := by omega
+      simp only [hz', if_false]
+      rcases hcase with ⟨hacc, hcs, hce, hcur⟩ | ⟨last, tail, hacc, hcs, hce, hcur⟩
+      · -- base case: first kept block
+        subst hacc hcs hce hcur
+        simp only [if_true, Model.combineLoop, hz, if_false]
+        apply ih
+        · exact hv'
+        · refine ⟨?_, ?_, Or.inr ⟨b, [], rfl, by simp, rfl, rfl⟩⟩
+          · simp [hns, startsOf]
+          · simp [hne, endsOf]
+      · subst hacc hce hcur
+        have hcs' : ¬ cs = none := hcs
+        simp only [hcs', if_false, Model.combineLoop, hz]
+        have hset : ∀ v : Int, listSetLast ne v = .ok (endsOf tail.reverse ++ [v]) := by
+          intro v
+          simp [listSetLast, hne, endsOf]
+        have hmax : max (last.2 : Int) (b.2 : Int) = ((max last.2 b.2 : Nat) : Int) := by omega
+        cases preserve with
+        | true =>
+          simp only [if_true, optGet]
+          by_cases hc : last.2 = b.1
+          · have hc' : (some (last.2 : Int) = some (b.1 : Int)) := by rw [hc]
+            simp only [hc', decide_true, if_true, hset, hmax, if_pos hc]
+            apply ih
+            · exact hv'
+            · refine ⟨?_, ?_, Or.inr ⟨_, tail, rfl, hcs, rfl, rfl⟩⟩
+              · simp [hns, startsOf]
+              · simp [endsOf]
+          · have hc' : ¬ (some (last.2 : Int) = some (b.1 : Int)) := by
+              intro h; simp only [Option.some.injEq] at h; omega
+            simp only [hc', decide_false, Bool.false_eq_true, if_false, if_neg hc]
+            apply ih
+            · exact hv'
+            · refine ⟨?_, ?_, Or.inr ⟨b, last :: tail, rfl, by simp, rfl, rfl⟩⟩
+              · simp [hns, startsOf]
+              · simp [hne, endsOf]
+        | false =>
+          simp only [Bool.false_eq_true, if_false, optGet]
+          by_cases hc : last.2 ≥ b.1
+          · have hc' : (last.2 : Int) ≥ (b.1 : Int) := by omega
+            simp only [hc', decide_true, if_true, hset, hmax, if_pos hc]
+            apply ih
+            · exact hv'
+            · refine ⟨?_, ?_, Or.inr ⟨_, tail, rfl, hcs, rfl, rfl⟩⟩
+              · simp [hns, startsOf]
+              · simp [endsOf]
+          · have hc' : ¬ (last.2 : Int) ≥ (b.1 : Int) := by omega
+            simp only [hc', decide_false, Bool.false_eq_true, if_false, if_neg hc]
+            apply ih
+            · exact hv'
+            · refine ⟨?_, ?_, Or.inr ⟨b, last :: tail, rfl, by simp, rfl, rfl⟩⟩
+              · simp [hns, startsOf]
+              · simp [hne, endsOf]
+
+theorem zipBlk_starts_ends (bs : List Blk) : zipBlk (startsOf bs) (endsOf bs) = bs := by
+  unfold zipBlk startsOf endsOf
+  rw [zip_map_map]
+  induction bs with
+  | nil => rfl
+  | cons b bs ih => simp only [List.map_cons, Int.toNat_natCast, ih]
+
+theorem combine_tie (l : Loc) (hv : blocksValid l.blocks = true) (preserve : Bool) :
+    AgreeK (finishOpt l) (Gen.CompoundInterval_combine_blocks (toCI l) preserve) (Model.optimizeLoc preserve l) := by
+  unfold Gen.CompoundInterval_combine_blocks Model.optimizeLoc
+  obtain ⟨cs', ce', h⟩ := combine_loop preserve l.blocks false none none [] [] none [] hv
+    ⟨rfl, rfl, Or.inl ⟨rfl, rfl, rfl, rfl⟩⟩
+  simp only [zip_starts_ends, h]
+  cases hc : Model.combineLoop preserve l.blocks none [] false with
+  | mk nb needs =>
+    simp only
+    cases needs with
+    | false => simp [AgreeK, finishOpt]
+    | true =>
+      cases nb with
+      | nil => simp [AgreeK, finishOpt, startsOf]
+      | cons x xs =>
+        simp only [startsOf, List.map_cons, ne_eq, reduceCtorEq, not_false_eq_true, not_true_eq_false, if_false,
+          AgreeK, finishOpt]
+        have := zipBlk_starts_ends (x :: xs)
+        simp only [startsOf, List.map_cons] at this
+        rw [this]
+        simp
+
+theorem optimize_blocks_tie (l : Loc) (hv : blocksValid l.blocks = true) :
+    AgreeK (finishOpt l) (Gen.CompoundInterval_optimize_blocks (toCI l)) (Model.optimizeBlocks (.compound l)) := by
+  have := combine_tie l hv true
+  unfold Gen.CompoundInterval_optimize_blocks Model.optimizeBlocks
+  cases hg : Gen.CompoundInterval_combine_blocks (toCI l) true with
+  | error e => rw [hg] at this; exact this
+  | ok o => rw [hg] at this; exact this
+
+theorem optimize_and_combine_blocks_tie (l : Loc) (hv : blocksValid l.blocks = true) :
+    AgreeK (finishOpt l) (Gen.CompoundInterval_optimize_and_combine_blocks (toCI l))
+      (Model.optimizeAndCombine (.compound l)) := by
+  have := combine_tie l hv false
+  unfold Gen.CompoundInterval_optimize_and_combine_blocks Model.optimizeAndCombine
+  cases hg : Gen.CompoundInterval_combine_blocks (toCI l) false with
+  | error e => rw [hg] at this; exact this
+  | ok o => rw [hg] at this; exact this
+
+/-- on a constructor-accepted location the generated `_combine_blocks` never raises (in particular neither the
+    `TypeError` of `None >= int` / `max(None, int)` nor the IndexError of `new_ends[-1] = …` is reachable) -/
+theorem combine_never_raises (l : Loc) (hv : blocksValid l.blocks = true) (preserve : Bool) :
+    ∃ o, Gen.CompoundInterval_combine_blocks (toCI l) preserve = .ok o := by
+  unfold Gen.CompoundInterval_combine_blocks
+  obtain ⟨cs', ce', h⟩ := combine_loop preserve l.blocks false none none [] [] none [] hv
+    ⟨rfl, rfl, Or.inl ⟨rfl, rfl, rfl, rfl⟩⟩
+  simp only [zip_starts_ends, h]
+  split
+  · exact ⟨_, rfl⟩
+  · split <;> exact ⟨_, rfl⟩
+
+/-! ### gap_list (the pairwise loop; head cut: the scanned blocks of the optimized location are an argument) -/
+
+def gapOk (gs : List Blk) : Bool := gs.all (fun g => decide (g.1 ≤ g.2))
+
+/-- the kernel's code after the loop: `return gaps` -/
+def afterGap : PyR (LoopOut (List SI) (List SI × SI)) → PyR (List SI)
+  | .ok (.ret r) => .ok r
+  | .ok (.done (g, _)) => .ok g
+  | .error e => .error e
+
+theorem gap_loop (self : CI) (st' : Strand) :
+    ∀ (rest : List Blk) (b : Blk) (acc : List SI),
+      afterGap (Gen.CompoundInterval_gap_list_loop1 self (rest.map (fun x => si x st')) acc (si b st'))
+        = if gapOk (Model.gapPairs (b :: rest)) = true
+          then .ok (acc ++ (Model.gapPairs (b :: rest)).map (fun g => si g self.strand))
+          else .error .InvalidPositionException := by
+  intro rest
+  induction rest with
+  | nil => intro b acc; simp [Gen.CompoundInterval_gap_list_loop1, afterGap, Model.gapPairs, gapOk]
+  | cons c rest ih =>
+    intro b acc
+    have hmin : min (b.2 : Int) (c.2 : Int) = ((min b.2 c.2 : Nat) : Int) := by omega
+    have hmax : max (b.1 : Int) (c.1 : Int) = ((max b.1 c.1 : Nat) : Int) := by omega
+    simp only [List.map_cons, Gen.CompoundInterval_gap_list_loop1, Model.gapPairs, gapOk, List.all_cons,
+      Bool.and_eq_true, decide_eq_true_eq, si, hmin, hmax, mkSI]
+    by_cases hg : min b.2 c.2 ≤ max b.1 c.1
+    · have hg' : (0 : Int) ≤ ((min b.2 c.2 : Nat) : Int) ∧ ((min b.2 c.2 : Nat) : Int) ≤ ((max b.1 c.1 : Nat) : Int) := by
+        omega
+      simp only [hg', and_self, if_true, hg, true_and]
+      have := ih c (acc ++ [si (min b.2 c.2, max b.1 c.1) self.strand])
+      simp only [si, gapOk] at this
+      rw [this]
+      split <;> simp [*]
+    · have hg' : ¬ ((0 : Int) ≤ ((min b.2 c.2 : Nat) : Int) ∧ ((min b.2 c.2 : Nat) : Int) ≤ ((max b.1 c.1 : Nat) : Int)) := by
+        omega
+      simp only [hg', if_false, hg, false_and, afterGap]
+
+/-- `CompoundInterval.gap_list` after `block_iter = optimized.scan_blocks()`: on the scanned blocks `b :: rest` (any
+    strand `st'`) the generated pairwise loop returns the model's `gapPairs`, each gap a SingleInterval on
+    `self.strand`, and raises InvalidPositionException exactly when some gap has `min(ends) > max(starts)`. -/
+theorem gap_list_tie (l : Loc) (st' : Strand) (b : Blk) (rest : List Blk) :
+    Gen.CompoundInterval_gap_list (toCI l) (si b st', rest.map (fun x => si x st'))
+      = if gapOk (Model.gapPairs (b :: rest)) = true
+        then .ok ((Model.gapPairs (b :: rest)).map (fun g => si g l.strand))
+        else .error .InvalidPositionException := by
+  have := gap_loop (toCI l) st' rest b []
+  rw [show (toCI l).strand = l.strand from rfl] at this
+  unfold Gen.CompoundInterval_gap_list
+  simp only [List.nil_append] at this ⊢
+  rw [← this]
+  cases Gen.CompoundInterval_gap_list_loop1 (toCI l) (List.map (fun x => si x st') rest) [] (si b st') with
+  | error e => rfl
+  | ok o => cases o <;> rfl
 
 end BioCantor.Proofs.LoopTies
